@@ -105,3 +105,25 @@ Theorem C09_aware_distinct_local :
   mk_diff_aware off dt1 dt2 = mk_diff dt1 dt2.
 Proof. exact mk_diff_aware_local. Qed.
 Print Assumptions C09_aware_distinct_local.
+
+(* ======== model <-> code tie by TRANSLATION: gen/RdAddGen.v is regenerated from
+   /repo/src/dateutil/relativedelta.py on every run by harness/gen_rd_add.py (fail-closed Python-ast
+   translator); the generated two-datetime constructor (with its `while` loop as a Fixpoint on fuel)
+   and __add__ equal the hand model used by all theorems above, for ALL inputs.  (Imported here, after
+   the model theorems, so that a change of the source breaks only the C09_gen_* obligations.) *)
+From V Require Import rd.RdGenBase gen.RdMethodsGen rd.RdGenThm rd.RdAddGenBase gen.RdAddGen rd.RdAddGenThm.
+
+Theorem C09_gen_init_diff : forall dt1 dt2, gen_init_diff dt1 dt2 = lift_rd (mk_diff dt1 dt2).
+Proof. exact gen_init_diff_correct. Qed.
+Print Assumptions C09_gen_init_diff.
+
+Theorem C09_gen_add_dt : forall d o, gen_add_dt (obj_of_rd d) o = add_dt d o.
+Proof. exact gen_add_dt_correct. Qed.
+Print Assumptions C09_gen_add_dt.
+
+(* the inverse law and the full predicate, stated directly about the translated source *)
+Theorem C09_gen_diff_inverse : forall dt1 dt2, valid_dt dt1 = true -> valid_dt dt2 = true ->
+  exists d, gen_init_diff dt1 dt2 = Ok (obj_of_rd d) /\ diff_ok dt1 dt2 d = true /\
+    gen_add_dt (obj_of_rd d) (snd (coerce_pair dt1 dt2)) = Ok (fst (coerce_pair dt1 dt2)).
+Proof. exact gen_diff_inverse. Qed.
+Print Assumptions C09_gen_diff_inverse.
